@@ -99,6 +99,16 @@ type C18SS struct {
 	Y  float32
 }
 type C18E0 struct{}
+
+// a struct whose String() omits a field (so two different values print alike), and a struct of two strings
+type C18SP struct {
+	ID   int
+	Name string
+}
+
+func (p C18SP) String() string { return p.Name }
+
+type C18S3 struct{ A, B string }
 type C18F0 func()
 type C18F1 func(int) int
 
@@ -124,12 +134,12 @@ var c18base = map[string]reflect.Type{
 	"NF32": reflect.TypeOf(C18NF32(0)), "NStr": reflect.TypeOf(C18NStr("")), "NBool": reflect.TypeOf(C18NBool(false)),
 	"Level": reflect.TypeOf(C18Level(0)), "ULevel": reflect.TypeOf(C18ULevel(0)), "Temp": reflect.TypeOf(C18Temp(0)), "Errno": reflect.TypeOf(C18Errno(0)),
 	"S1": reflect.TypeOf(C18S1{}), "S2": reflect.TypeOf(C18S2{}), "SF": reflect.TypeOf(C18SF{}), "SB": reflect.TypeOf(C18SB{}),
-	"SN": reflect.TypeOf(C18SN{}), "SS": reflect.TypeOf(C18SS{}), "E0": reflect.TypeOf(C18E0{}),
+	"SN": reflect.TypeOf(C18SN{}), "SS": reflect.TypeOf(C18SS{}), "E0": reflect.TypeOf(C18E0{}), "SP": reflect.TypeOf(C18SP{}), "S3": reflect.TypeOf(C18S3{}),
 	"F0": reflect.TypeOf(C18F0(nil)), "F1": reflect.TypeOf(C18F1(nil)), "func()": reflect.TypeOf(func() {}),
 }
 
 // types that can be boxed into the non-empty interfaces of the zoo
-var c18impls = map[string][]string{"IStr": {"Level", "ULevel", "Temp"}, "error": {"Errno"}}
+var c18impls = map[string][]string{"IStr": {"Level", "ULevel", "Temp", "SP"}, "error": {"Errno"}}
 
 func c18type(name string) reflect.Type {
 	if t, ok := c18base[name]; ok {
